@@ -190,11 +190,11 @@ def configs(tier):
                                             {"cls": "PipeReady", "dw": 1}]},
               _cfg("down", dset=range(4), ratio=2, w=1, cap=6)))
     if tier == "thorough":
-        for depth, buf in [(4, False), (4, True), (3, False), (5, True), (8, False)]:
+        for depth, buf in [(4, False), (4, True), (3, False)]:
             L.append(({"cls": "SyncFIFO", "args": {"depth": depth, "buffered": buf}, "dw": 1},
                       _cfg("id", cap=depth + 3, fl=1 if depth <= 4 else 0)))
         L.append(({"cls": "Delay", "args": {"n": 3}, "dw": 1}, _cfg("id", cap=5)))
-        for nfrom, nto, rev, vtc in [(1, 8, False, True), (1, 3, True, True), (2, 8, False, False)]:
+        for nfrom, nto, rev, vtc in [(1, 8, False, True), (1, 3, True, True), (2, 6, False, False)]:
             r = nto // nfrom
             L.append(({"cls": "Converter", "args": {"nfrom": nfrom, "nto": nto, "reverse": rev, "vtc": vtc}, "vtc": vtc},
                       _cfg("up", dset=range(2**nfrom), ratio=r, reverse=int(rev), w=nfrom, vtc=int(vtc), cap=3)))
@@ -203,7 +203,7 @@ def configs(tier):
             ds = {8: (1, 2, 4, 8, 16, 32, 64, 128, 0xa5, 0x3c), 3: range(8)}[nfrom]
             L.append(({"cls": "Converter", "args": {"nfrom": nfrom, "nto": nto, "reverse": rev, "vtc": True}, "vtc": True},
                       _cfg("down", dset=ds, ratio=r, reverse=int(rev), w=nto, vtc=1, cap=r + 1)))
-        for i, o, msb in [(3, 5, True), (5, 3, False), (4, 6, False), (6, 4, True), (2, 5, True), (3, 3, True)]:
+        for i, o, msb in [(4, 6, False), (2, 5, True), (3, 3, True), (5, 2, False)]:
             import math
             lcm = i * o // math.gcd(i, o)
             ds = range(2**i) if i <= 4 else (1, 2, 4, 8, 16, 32, 21, 42, 63, 0)
